@@ -281,10 +281,10 @@ class Func:
         out = []
         for b, blk in enumerate(self.blocks):
             for i, s in enumerate(blk['stmts']):
-                if s['k'] == 'assign' and s['lhs']['p'] and s['lhs']['l'] == local:
+                if s['k'] == 'assign' and s['lhs']['p'] and s['lhs']['l'] == local and s['lhs']['p'][0]['k'] != 'deref':
                     out.append((Loc(b, i), s))
             t = blk['term']
-            if t['k'] == 'call' and t['dest']['p'] and t['dest']['l'] == local:
+            if t['k'] == 'call' and t['dest']['p'] and t['dest']['l'] == local and t['dest']['p'][0]['k'] != 'deref':
                 out.append((self.term_loc(b), t))
         return out
 
@@ -592,6 +592,8 @@ def expr_str(e):
         return 'discriminant(%s)' % expr_str(e[1])
     if k == 'phi':
         return 'phi(%s)' % ', '.join(expr_str(a) for a in e[1])
+    if k == 'repeat':
+        return '[%s; %s]' % (expr_str(e[1]), e[2])
     return str(tuple(e))
 
 
@@ -617,7 +619,7 @@ class ExprBuilder:
         base = self.local(pl['l'], depth, stack)
         if not pl['p']:
             return base
-        return simplify_proj(base, tuple(proj_str(p) for p in pl['p']))
+        return simplify_proj(base, tuple(proj_str(p) for p in pl['p']), pl.get('ty'))
 
     def local(self, n, depth=0, stack=()):
         f = self.f
@@ -700,12 +702,14 @@ def simplify_ref(inner):
     if inner[0] == 'proj' and inner[2] and inner[2][-1] == '*':
         rest = inner[2][:-1]
         if rest:
-            return E('proj', inner[1], rest)
+            # what was dereferenced is, by construction, pointer-typed
+            return E('proj', inner[1], rest, '&<reborrowed>')
         return inner[1]
     return E('ref', inner)
 
 
-def simplify_proj(base, projs):
+def simplify_proj(base, projs, ty=None):
+    """E('proj', base, projs, ty): ty is the type of the projected place when known"""
     projs = tuple(projs)
     # *(&x) == x
     while projs and projs[0] == '*' and base[0] == 'ref':
@@ -714,7 +718,7 @@ def simplify_proj(base, projs):
     if not projs:
         return base
     if base[0] == 'proj':
-        return E('proj', base[1], base[2] + projs)
+        return E('proj', base[1], base[2] + projs, ty)
     # field of a known aggregate
     if base[0] == 'agg' and projs[0].startswith('.'):
         name = projs[0][1:]
@@ -725,8 +729,12 @@ def simplify_proj(base, projs):
         elif name.isdigit() and int(name) < len(base[3]) and not fields:
             idx = int(name)
         if idx is not None and idx < len(base[3]):
-            return simplify_proj(base[3][idx], projs[1:])
-    return E('proj', base, projs)
+            return simplify_proj(base[3][idx], projs[1:], ty)
+    return E('proj', base, projs, ty)
+
+
+def proj_ty(e):
+    return e[3] if e[0] == 'proj' and len(e) > 3 else None
 
 
 def access_path(e):
